@@ -171,10 +171,25 @@ func (x *Exec) call(st *State, call *ast.CallExpr) []Term {
 	}
 	x.anchorsHit["before@"+q] = true
 	x.anchorsHit["after@"+q] = true
+	// a call site can also be addressed individually: before@q#0 is the first call of q in the function (in the order
+	// the symbolic execution meets the call sites, which is source order)
+	if x.anchorOrd == nil {
+		x.anchorOrd = map[*ast.CallExpr]int{}
+		x.anchorCnt = map[string]int{}
+	}
+	ord, seen := x.anchorOrd[call]
+	if !seen {
+		ord = x.anchorCnt[q]
+		x.anchorCnt[q]++
+		x.anchorOrd[call] = ord
+	}
+	qn := fmt.Sprintf("%s#%d", q, ord)
+	x.anchorsHit["before@"+qn] = true
+	x.anchorsHit["after@"+qn] = true
 	// ghost statements anchored at a call may name its arguments as $a0, $a1, ... (evaluated before the call; the
 	// receiver of a method call is not counted)
 	wantArgs := false
-	for _, k := range []string{"before@" + q, "after@" + q} {
+	for _, k := range []string{"before@" + q, "after@" + q, "before@" + qn, "after@" + qn} {
 		for _, gs := range x.ct.CallGhost[k] {
 			if strings.Contains(gs.Raw, "$a") {
 				wantArgs = true
@@ -187,13 +202,15 @@ func (x *Exec) call(st *State, call *ast.CallExpr) []Term {
 		}
 	}
 	x.runGhost(st, x.ct.CallGhost["before@"+q], "before@"+q, call)
+	x.runGhost(st, x.ct.CallGhost["before@"+qn], "before@"+qn, call)
 	rs := x.callInner(st, call)
-	if gs := x.ct.CallGhost["after@"+q]; len(gs) > 0 {
+	if len(x.ct.CallGhost["after@"+q])+len(x.ct.CallGhost["after@"+qn]) > 0 {
 		// the call's results are visible to the ghost statements as $r0, $r1, ...
 		for i, r := range rs {
 			st.ghost[fmt.Sprintf("$r%d", i)] = r
 		}
-		x.runGhost(st, gs, "after@"+q, call)
+		x.runGhost(st, x.ct.CallGhost["after@"+q], "after@"+q, call)
+		x.runGhost(st, x.ct.CallGhost["after@"+qn], "after@"+qn, call)
 		for i := range rs {
 			delete(st.ghost, fmt.Sprintf("$r%d", i))
 		}
